@@ -39,7 +39,7 @@ func init() {
 		mk := func(name string, alpha []byte, keyLen, maxKeys int) *seqmc.Spec {
 			keys := allStrings(alpha, 1, keyLen)
 			queries := allStrings(alpha, 0, keyLen+1)
-			return &seqmc.Spec{Property: "C09", Component: name, KeyName: "Trie", Inits: []string{"empty"}, New: func(string) seqmc.Sys {
+			return &seqmc.Spec{Property: "C09", PureObservers: true, Component: name, KeyName: "Trie", Inits: []string{"empty"}, New: func(string) seqmc.Sys {
 				return &trieSys{t: trie.New[string, int](queue.New[string]()), model: map[string]int{}, keys: keys, queries: queries, maxKeys: maxKeys}
 			}}
 		}
@@ -184,6 +184,32 @@ func (s *trieSys) Observe(c *seqmc.Ctx) {
 		}
 		if want := s.sortedKeys(p); err != nil || fmt.Sprintf("%q", got) != fmt.Sprintf("%q", want) {
 			c.Fail(n+"StartsWith/differs/"+nonASCII(want), "StartsWith(%q) = %q (err %v), want %q", p, got, err, want)
+		}
+	}
+	// A result that the caller abandons (not drained, or drained in part) must not leak into the
+	// answer of the next query: the trie hands out a queue, and nothing says it has to be emptied.
+	if all := s.sortedKeys(""); len(all) > 0 {
+		firsts := []func() trie.Queuer[string]{
+			func() trie.Queuer[string] { q, _ := s.t.Keys(); return q },
+			func() trie.Queuer[string] { q, _ := s.t.StartsWith(all[0][:1]); return q },
+		}
+		for fi, first := range firsts {
+			for take := 0; take < 2; take++ {
+				for _, p := range s.queries {
+					if len(p) == 0 || len(p) > 3 {
+						continue
+					}
+					r1 := first()
+					if take == 1 && r1 != nil {
+						r1.Dequeue()
+					}
+					qk, err := s.t.StartsWith(p)
+					got := drainQ(qk)
+					if want := s.sortedKeys(p); err != nil || fmt.Sprintf("%q", got) != fmt.Sprintf("%q", want) {
+						c.Fail(n+"StartsWith/differs-after-an-abandoned-result", "after %s whose result had %d element(s) taken, StartsWith(%q) = %q (err %v), want %q", []string{"Keys()", "StartsWith(" + all[0][:1] + ")"}[fi], take, p, got, err, want)
+					}
+				}
+			}
 		}
 	}
 	for _, q := range s.queries {
